@@ -985,7 +985,8 @@ def extract(chk: Check) -> bool:
              ('extract:filter.py:Filter.to_sql', lambda: c14_extract.extract_to_sql(f) + '\n'),
              ('extract:filter.py:spatial condition builders', lambda: c14_extract.extract_spatial_builders(f) + '\n'),
              ('extract:query.py:_common_conditions+Query+CountQuery+FrequentFlightQuery',
-              lambda: c14_extract.extract_query(q))]
+              lambda: c14_extract.extract_query(q) + '\n'),
+             ('extract:database.py:Database.__call__', lambda: c14_extract.extract_database(src / 'database.py'))]
     text, ok = '', True
     for name, fn in parts:
         try:
